@@ -263,8 +263,18 @@ def column_of(g, n, e: ast.AST, depth: int = 4):
                 if not (d.kind == "stmt" and isinstance(a_, ast.Assign)):
                     return None
                 subs = [t for t in a_.targets if isinstance(t, ast.Subscript) and isinstance(t.value, ast.Name)]
+                tup = [t for t in a_.targets if isinstance(t, (ast.Tuple, ast.List)) and _target_path(t, e.id) is not None]
                 if len(a_.targets) == 2 and len(subs) == 1 and any(isinstance(t, ast.Name) and t.id == e.id for t in a_.targets):
                     cols.add((subs[0].value.id, (), norm(subs[0].slice)))
+                elif tup and len(a_.targets) == 2 and len(subs) == 1:
+                    # `paths, oids = D[k] = ([], [])`
+                    cols.add((subs[0].value.id, tuple(_target_path(tup[0], e.id)), norm(subs[0].slice)))
+                elif tup and len(a_.targets) == 1:
+                    # `paths, oids = D[k]`
+                    inner = column_of(g, d, a_.value, depth - 1)
+                    if inner is None:
+                        return None
+                    cols.add((inner[0], inner[1] + tuple(_target_path(tup[0], e.id)), inner[2]))
                 elif len(a_.targets) == 1 and isinstance(a_.targets[0], ast.Name):
                     inner = column_of(g, d, a_.value, depth - 1)
                     if inner is None:
